@@ -14,6 +14,7 @@ from ..shims import import_dclab
 
 PID = "C20"
 NAN = 99
+INF = 98
 
 BASE = """
 CONSTANTS
@@ -22,6 +23,7 @@ CONSTANTS
  MaxBlock = {mb}
  CopyKinds <- {kinds}
  CountValid = {cv}
+ WithInf = {inf}
  MaxDepth = {d}
 CHECK_DEADLOCK FALSE
 """
@@ -31,11 +33,23 @@ HIST = "INIT HInit\nNEXT HNext\nCONSTRAINT HCon\n"
 
 def conc(vals, feat):
     if feat == "deform":
-        return np.array([np.nan if v == NAN else float(v) for v in vals])
+        return np.array([np.nan if v == NAN else np.inf if v == INF
+                         else float(v) for v in vals])
     return np.array([v + 2 for v in vals], dtype=np.uint32)   # fl1_max
 
 
+def close(g, r):
+    g, r = float(g), float(r)
+    if np.isnan(g) or np.isnan(r):
+        return bool(np.isnan(g) and np.isnan(r))
+    if np.isinf(g) or np.isinf(r):
+        return g == r
+    return abs(g - r) <= 1e-12 * max(1.0, abs(r))
+
+
 def rat_ok(obs, rat, shift=0):
+    if rat[1] == 0 and rat[0] == 1:
+        return isinstance(obs, (float, np.floating)) and obs == np.inf
     if rat[1] == 0:
         return isinstance(obs, (float, np.floating)) and math.isnan(obs)
     want = rat[0] / rat[1] + shift
@@ -240,20 +254,15 @@ def _replay(job):
                 break
             if obs.get("refresh") is not None:
                 got, ref, same_data = obs["refresh"]
-                okr = same_data and all(
-                    (np.isnan(g) and np.isnan(r)) or abs(float(g) - float(r))
-                    <= 1e-12 * max(1.0, abs(float(r)))
-                    for g, r in zip(got, ref))
+                okr = same_data and all(close(g, r)
+                                        for g, r in zip(got, ref))
                 if not okr:
                     viol = ("summaries of a refreshed hierarchy child differ "
                             "from its data", "steps %s: reported %s, data "
                             "give %s" % (steps, got, ref), i)
                     break
             for name, got, ref in obs.get("derived", []):
-                if not all((np.isnan(g) and np.isnan(r))
-                           or abs(float(g) - float(r))
-                           <= 1e-12 * max(1.0, abs(float(r)))
-                           for g, r in zip(got, ref)):
+                if not all(close(g, r) for g, r in zip(got, ref)):
                     viol = ("summaries of a %s dataset differ from its data"
                             % name, "steps %s: reported %s, data give %s" % (
                                 steps, got, ref), i)
@@ -293,7 +302,8 @@ def main(tier, seed, replay=None):
     import_dclab()
     ev = evidence.Evidence(PID, tier, seed)
     rep = findings.Reporter(PID, ev)
-    ev.rule = ("production histories (append blocks over {ints, NaN} in any "
+    ev.rule = ("production histories (append blocks over {ints, NaN} and "
+               "{int, NaN, +inf} in any "
                "partition, writer re-opened, replace mode, summaries "
                "stripped, compress/repack/condense/export) enumerated by TLC "
                "from SummariesSpec up to the depth bound with exact rational "
@@ -311,40 +321,58 @@ def main(tier, seed, replay=None):
                       "(no min/max/mean methods): nothing to compare"]
     # 1. design level: the write paths keep the stored summaries correct
     ok = tlc.run("MC_Summaries", DESIGN + BASE.format(
-        vals="MCVals", ml=5 if tier == "quick" else 6, mb=2, cv="TRUE",
+        vals="MCVals", ml=5 if tier == "quick" else 6, mb=2, cv="TRUE", inf="FALSE",
         d=9, kinds="KindsAll"), timeout=2000, coverage=(tier == "thorough"))
     ev.add_tlc("MC_Summaries design (CountValid) StoredCorrect", ok)
     if not ok.ok:
         raise tlc.TLCError("repaired SummariesSpec violates StoredCorrect\n"
                            + ok.cex)
+    ok2 = tlc.run("MC_Summaries", DESIGN + BASE.format(
+        vals="MCValsSmall", ml=5, mb=2, cv="TRUE", inf="TRUE", d=9,
+        kinds="KindsAll"), timeout=2000)
+    ev.add_tlc("MC_Summaries design with +inf StoredCorrect", ok2)
+    if not ok2.ok:
+        raise tlc.TLCError("SummariesSpec with +inf violates StoredCorrect\n"
+                           + ok2.cex)
     bad = tlc.run("MC_Summaries", DESIGN + BASE.format(
-        vals="MCVals", ml=4, mb=2, cv="FALSE", d=9, kinds="KindsAll"), timeout=600)
+        vals="MCVals", ml=4, mb=2, cv="FALSE", inf="FALSE", d=9,
+        kinds="KindsAll"), timeout=600)
     ev.extra["deviation_model_counterexample"] = bad.violated
     if bad.ok:
         raise tlc.TLCError("size-weighted running mean no longer yields a "
                            "counterexample")
     # 2. spec -> code
     d = 3 if tier == "quick" else 4
-    res = tlc.run("MC_Summaries", HIST + BASE.format(
-        vals="MCValsSmall", ml=6, mb=2, cv="TRUE", d=d,
-        kinds="KindsQuick" if tier == "quick" else "KindsAll"), workers=8,
-        timeout=3000)
-    ev.add_tlc("MC_Summaries histories depth %d" % d, res)
-    hs = res.tagged("H")
-    if tier == "quick" and len(hs) > 20000:
-        # histories in which the stored summaries go missing are all kept
-        strip = [h for h in hs if any(r["step"]["a"] == "strip" for r in h)]
-        hs = strip + par.sample([h for h in hs if not any(
-            r["step"]["a"] == "strip" for r in h)], 2, seed)
-    elif len(hs) > 120000:
-        hs = par.sample(hs, 4, seed)
+    hs = []
+    # two value alphabets: {-2, 3, NaN} and {3, NaN, +inf}
+    for vals, inf in (("MCValsSmall", "FALSE"), ("MCValsOne", "TRUE")):
+        res = tlc.run("MC_Summaries", HIST + BASE.format(
+            vals=vals, ml=6, mb=2, cv="TRUE", inf=inf, d=d,
+            kinds="KindsQuick" if tier == "quick" else "KindsAll"), workers=8,
+            timeout=3000)
+        ev.add_tlc("MC_Summaries histories %s depth %d" % (vals, d), res)
+        part = res.tagged("H")
+        if tier == "quick" and len(part) > 20000:
+            # histories in which the stored summaries go missing are all kept
+            strip = [h for h in part
+                     if any(r["step"]["a"] == "strip" for r in h)]
+            part = strip + par.sample([h for h in part if not any(
+                r["step"]["a"] == "strip" for r in h)], 2 if inf == "FALSE"
+                else 4, seed)
+            if inf == "TRUE":
+                part = [h for h in part if any(
+                    INF in (r["step"].get("blk") or []) for r in h)]
+        elif len(part) > 120000:
+            part = par.sample(part, 4 if inf == "FALSE" else 8, seed)
+        hs += part
     root = tlc.scratch_dir("vp_c20_")
     try:
         jobs = []
         for h in hs:
             jobs.append((h, root, "deform"))
             # integer-typed feature for every NaN-free history
-            if not any(NAN in (r["step"].get("blk") or []) for r in h):
+            if not any(NAN in (r["step"].get("blk") or [])
+                       or INF in (r["step"].get("blk") or []) for r in h):
                 jobs.append((h, root, "fl1_max"))
         for case, viol in par.pmap(_replay, jobs, chunk=50):
             ev.traces += 1
